@@ -101,7 +101,14 @@ def main():
             v = Draft202012Validator(wrap(m["doc"], m["schema"]), registry=registry_for(m["doc"]))
             errs = sorted(v.iter_errors(m["instance"]), key=lambda e: list(e.absolute_path))
             res["valid"] = not errs
-            res["errors"] = [("/".join(str(p) for p in e.absolute_path) + ": " + e.message)[:200] for e in errs[:4]]
+            def kind(e):
+                k = str(e.validator)
+                if k == "type":
+                    return "type(" + (e.validator_value if isinstance(e.validator_value, str) else "|".join(e.validator_value)) + ")"
+                if k == "oneOf":
+                    return "oneOf-ambiguous" if "is valid under each of" in e.message else "oneOf-none"
+                return k
+            res["errors"] = [("/".join(str(p) for p in e.absolute_path))[:80] + ": KIND=" + kind(e) for e in errs[:6]]
             if m.get("check_undescribed", True):
                 und = []
                 undescribed(m["doc"], m["schema"], m["instance"], "$", und)
